@@ -770,7 +770,7 @@ func TestMain(m *testing.M) {
 }
 
 func init() {
-	vf.Register(vf.Sub[Case]{Name: "cli", Quick: 700, Thorough: 6000, Gen: genCase, Check: check, Floor: 0.5,
+	vf.Register(vf.Sub[Case]{Name: "cli", Quick: 700, Thorough: 3000, Gen: genCase, Check: check, Floor: 0.5,
 		Classes: map[string]float64{"kind-cnf": 0.05, "kind-opb": 0.05, "kind-wcnf": 0.05, "kind-bf": 0.05, "flag-count": 0.05, "flag-certified": 0.03, "flag-mus": 0.015, "flag-cp": 0.05, "flag-verbose": 0.05},
 		Rule:    "the executable is built from the tree and run on generated .cnf (odd clause shapes, 3-SAT, pigeonhole, clique-rich formulas mostly run with -cp, pigeonhole with 5..6 holes plus padding - verdict known by construction, certificate of hundreds of lines replayed), .opb (with/without objective of either sign; knapsack equalities over 15..18 variables mostly run with -cp), .wcnf and .bf files (one in six with an exactly-one group of 10..30 names, all names but 2..10 fixed by conjoined literals) (conventional layout, n<=10; one in eight .cnf/.opb/.wcnf files holds a comment line of 100 to 70 000 bytes made of words and numbers, as first, second or last line) x flag sets {none, -verbose, -cp, -count, -verbose -count, -cp -verbose, -certified, -certified -verbose, -mus} (-certified is not combined with -cp: a RUP certificate cannot express the PB constraints that strategy learns, and the property lists the flags separately), plus unreadable paths, an unknown suffix and syntactically broken files; stdout is parsed: exactly one status line, the v line is a total model of the file, 's UNSATISFIABLE' only for unsatisfiable files, o lines strictly decreasing and ending in the brute-force optimum attained by the printed model, -count prints exactly the model count, the -certified lines replay as a RUP refutation, the -mus DIMACS block is a minimal unsatisfiable sub-multiset of the file; -verbose only adds comment lines; bad files: exit status != 0 and no answer line; non-trivial = file with >=2 constraints (or formula of size >=4, count >=2, an extracted MUS, a bad file)"})
 }
